@@ -42,7 +42,12 @@ var nonNumericBound = []struct{ class, tok string }{{"non-numeric", "abc"}, {"no
 
 // IllFormed derives, systematically, the ill-formed variants of v that C10
 // quantifies over. thorough adds the "nan" class.
-func IllFormed(v *Vector, thorough bool) []Variant {
+// r (may be nil) adds seeded random overflowing digit strings at every integer position.
+func IllFormed(v *Vector, thorough bool, rs ...*rng.R) []Variant {
+	var r *rng.R
+	if len(rs) > 0 {
+		r = rs[0]
+	}
 	var out []Variant
 	add := func(class, what string, req resp.Value) {
 		out = append(out, Variant{Class: class, Req: req, From: v, What: what})
@@ -69,6 +74,16 @@ func IllFormed(v *Vector, thorough bool) []Variant {
 		case KInt, KPosInt:
 			for _, t := range nonNumericInt {
 				add(t.class, s.Name+"="+strconv.Quote(t.tok), argvValue(replaced(v.Argv, i, t.tok), -1))
+			}
+			if r != nil {
+				// random decimal strings far beyond 64 bits (a hand-rolled integer parser may wrap around on some)
+				for k := 0; k < 6; k++ {
+					tok := string(r.From([]byte("123456789"), 1)) + string(r.From([]byte("0123456789"), 19+r.Intn(6)))
+					if r.Chance(1, 4) {
+						tok = "-" + tok
+					}
+					add("overflowing", s.Name+"=<random "+strconv.Itoa(len(tok))+"-digit number>", argvValue(replaced(v.Argv, i, tok), -1))
+				}
 			}
 			if s.Kind == KPosInt {
 				// an expiry must be positive: 0 and negative values are out of range
